@@ -47,6 +47,7 @@ def cases(draw, name, tier):
         for s in case["srcs"]:
             s["fl"] = draw(st.sampled_from(["agen", "agen", "aclass", "aplain", "aclass_noclose", "agenlike"]))
             s["csusp"] = draw(st.booleans())
+            s["cret"] = draw(st.sampled_from([None, None, True, "closed"]))
     if name == "chain_from_iterable":
         case["params"]["outer"]["fl"] = draw(st.sampled_from(["agen", "aclass", "list"]))
         case["params"]["outer"]["csusp"] = draw(st.booleans())
